@@ -14,10 +14,12 @@ def run(ctx):
         return orig(rng, kind)
 
     valcorr.cond_expr = biased
+    valcorr.EMPTY_HINT[0] = 0.2
     try:
         cases = valcorr.validation_cases(ctx, 60 if ctx.quick else 1400, unknown=0.0, revisit=0.4)
     finally:
         valcorr.cond_expr = orig
+        valcorr.EMPTY_HINT[0] = 0.0
     valcorr.check_val_correspondence(ctx, cases, "C16")
     n_inv = 0
     for c in cases:
